@@ -24,7 +24,6 @@ const c07 = "C07"
 
 const (
 	graceBlocked = 60 * time.Millisecond // how long "nothing happens" is observed
-	boundArrive  = 10 * time.Second      // how long "must happen" may take
 )
 
 // ---------- layer 1: model ----------
@@ -190,7 +189,7 @@ func TestC07_SenderConformance(t *testing.T) {
 		case peer = <-rs.peers:
 		case err := <-rs.errc:
 			rt.Fatalf("infrastructure: raw handshake: %v", err)
-		case <-time.After(boundArrive):
+		case <-time.After(boundArrive()):
 			rt.Fatalf("infrastructure: no raw peer")
 		}
 		defer peer.Close()
@@ -238,9 +237,9 @@ func TestC07_SenderConformance(t *testing.T) {
 			return netfx.Make(netfx.Header{Chan: 7, Seq: uint32(i)}, int(size))
 		}
 		expectFrame := func(i int, size int64, code int32, what string) bool {
-			f, ok := rs.next(boundArrive)
+			f, ok := rs.next(boundArrive())
 			if !ok {
-				fail("sender:frame-missing", "%s: no frame within %v", what, boundArrive)
+				fail("sender:frame-missing", "%s: no frame within %v", what, boundArrive())
 				return false
 			}
 			if f.Code != code || int64(len(f.Data)) != size {
@@ -280,8 +279,8 @@ func TestC07_SenderConformance(t *testing.T) {
 					if !st.OK() {
 						fail("sender:send-failed", "Send[%d]: %v", i, st)
 					}
-				case <-time.After(boundArrive):
-					fail("sender:admissible-send-blocked", "Send[%d] of %d bytes must be admitted (free window %d, W=%d) but did not return within %v", i, size, model.Free, w, boundArrive)
+				case <-time.After(boundArrive()):
+					fail("sender:admissible-send-blocked", "Send[%d] of %d bytes must be admitted (free window %d, W=%d) but did not return within %v", i, size, model.Free, w, boundArrive())
 				}
 				model.Debit(size)
 				if out := model.Outstanding(); out > fcmodel.Bound(w, size) {
@@ -301,8 +300,8 @@ func TestC07_SenderConformance(t *testing.T) {
 					if !st.OK() {
 						fail("sender:close-failed", "SendAndClose under exhausted window: %v", st)
 					}
-				case <-time.After(boundArrive):
-					fail("sender:close-waits-for-window", "SendAndClose of %d bytes with free window %d (W=%d) did not return within %v: the closing payload must not wait for the window", size, model.Free, w, boundArrive)
+				case <-time.After(boundArrive()):
+					fail("sender:close-waits-for-window", "SendAndClose of %d bytes with free window %d (W=%d) did not return within %v: the closing payload must not wait for the window", size, model.Free, w, boundArrive())
 				}
 				hist("sendAndClose size=%d with free=%d (exempt)", size, model.Free)
 				expectFrame(i, size, netfx.CodeClose, "close frame with payload")
@@ -336,8 +335,8 @@ func TestC07_SenderConformance(t *testing.T) {
 					if st.OK() {
 						fail("sender:cancel-ignored", "blocked Send returned OK after its context was cancelled")
 					}
-				case <-time.After(boundArrive):
-					fail("sender:cancel-ignored", "blocked Send did not return within %v after its context was cancelled", boundArrive)
+				case <-time.After(boundArrive()):
+					fail("sender:cancel-ignored", "blocked Send did not return within %v after its context was cancelled", boundArrive())
 				}
 				hist("blocked send released by context cancel")
 				ending = "done"
@@ -351,8 +350,8 @@ func TestC07_SenderConformance(t *testing.T) {
 					if st.OK() {
 						fail("sender:close-ignored", "blocked Send returned OK after the peer closed the channel")
 					}
-				case <-time.After(boundArrive):
-					fail("sender:close-ignored", "blocked Send did not return within %v after the peer closed the channel", boundArrive)
+				case <-time.After(boundArrive()):
+					fail("sender:close-ignored", "blocked Send did not return within %v after the peer closed the channel", boundArrive())
 				}
 				hist("blocked send released by peer close")
 				ending = "done"
@@ -389,8 +388,8 @@ func TestC07_SenderConformance(t *testing.T) {
 				if !st.OK() {
 					fail("sender:send-failed", "Send[%d] after sufficient update: %v", i, st)
 				}
-			case <-time.After(boundArrive):
-				fail("sender:blocked-send-never-admitted", "Send[%d] of %d bytes stayed blocked for %v after updates %v made the free window %d (W=%d)", i, size, boundArrive, acks, model.Free, w)
+			case <-time.After(boundArrive()):
+				fail("sender:blocked-send-never-admitted", "Send[%d] of %d bytes stayed blocked for %v after updates %v made the free window %d (W=%d)", i, size, boundArrive(), acks, model.Free, w)
 			}
 			model.Debit(size)
 			blockedAdmitted = true
@@ -509,9 +508,9 @@ func TestC07_ReceiverConformance(t *testing.T) {
 			marks <- struct{}{}
 			var deltas []int64
 			for {
-				f, err := peer.ReadFrame(boundArrive)
+				f, err := peer.ReadFrame(boundArrive())
 				if err != nil {
-					fail("receiver:marker-missing", "marker did not arrive within %v: %v", boundArrive, err)
+					fail("receiver:marker-missing", "marker did not arrive within %v: %v", boundArrive(), err)
 					return nil, false
 				}
 				for _, x := range f.Flat() {
@@ -554,8 +553,8 @@ func TestC07_ReceiverConformance(t *testing.T) {
 			if int64(sz) != openSize {
 				fail("receiver:wrong-size", "open payload read as %d bytes, sent %d", sz, openSize)
 			}
-		case <-time.After(boundArrive):
-			fail("receiver:no-delivery", "handler did not receive the opening payload within %v", boundArrive)
+		case <-time.After(boundArrive()):
+			fail("receiver:no-delivery", "handler did not receive the opening payload within %v", boundArrive())
 		}
 		if !check("opening payload", openSize) {
 			return
@@ -569,7 +568,7 @@ func TestC07_ReceiverConformance(t *testing.T) {
 			}
 			select {
 			case cmds <- c:
-			case <-time.After(boundArrive):
+			case <-time.After(boundArrive()):
 				fail("receiver:handler-stuck", "handler did not take the next command")
 				return
 			}
@@ -588,8 +587,8 @@ func TestC07_ReceiverConformance(t *testing.T) {
 					fail("receiver:wrong-size", "data frame %d read as %d bytes, sent %d (closed=%v)", i, sz, s, closed)
 					return
 				}
-			case <-time.After(boundArrive):
-				fail("receiver:no-delivery", "Receive %d did not return within %v", i, boundArrive)
+			case <-time.After(boundArrive()):
+				fail("receiver:no-delivery", "Receive %d did not return within %v", i, boundArrive())
 				return
 			}
 			before := model.Consumed
@@ -643,3 +642,6 @@ func TestC07_EndToEndLiveness(t *testing.T) {
 		ev.Case(c07, ev.Hash("E", fmt.Sprint(cfg), fmt.Sprint(sc.C2S, sc.S2C, sc.Variant)), true, "e2e")
 	})
 }
+
+// boundArrive is how long a "must happen" may take (10 s; shorter while shrinking, see ev.Bound).
+func boundArrive() time.Duration { return ev.Bound(10 * time.Second) }
